@@ -140,4 +140,126 @@ theorem defrag_more (db : DB) (h : Cached db) :
   · show (cleanupold (writedatfile e2) _).verSeq = _
     rw [cv, (writedatfile_disk e2).2.2.2.2.2.1, hv2]
 
+/-! ### the invariant after defrag -/
+
+theorem isetAll_nil_nodup (recs : List (Key × Rec)) (h : (Keys recs).Nodup) : isetAll [] recs = recs := by
+  have h1 := (memputAll_isetAll recs ({ fs := {} } : DB)).1
+  have h2 := memputAll_index recs ({ fs := {} } : DB) (by
+    show (([] : List (Key × Rec)).map (·.1) ++ recs.map (·.1)).Nodup
+    simpa [Keys] using h)
+  rw [h1] at h2
+  exact h2
+
+theorem layout_wf (s base : Nat) (l : List (Key × Rec)) (hw : ∀ kr ∈ l, RecWF kr) : ∀ kr ∈ layout s base l, RecWF kr := by
+  induction l generalizing base with
+  | nil => intro kr h; cases h
+  | cons hd t ih =>
+    obtain ⟨k, r⟩ := hd
+    intro kr h
+    simp only [layout, List.mem_cons] at h
+    rcases h with h | h
+    · rw [h]; exact hw (k, r) List.mem_cons_self
+    · exact ih _ (fun x hx => hw x (List.mem_cons_of_mem _ hx)) kr h
+
+theorem layout_cached (s base : Nat) (l : List (Key × Rec)) (hc : AllCached l) : AllCached (layout s base l) := by
+  induction l generalizing base with
+  | nil => intro kr h; cases h
+  | cons hd t ih =>
+    obtain ⟨k, r⟩ := hd
+    intro kr h
+    simp only [layout, List.mem_cons] at h
+    rcases h with h | h
+    · rw [h]; exact hc (k, r) List.mem_cons_self
+    · exact ih _ (fun x hx => hc x (List.mem_cons_of_mem _ hx)) kr h
+
+/-- every laid-out record can be read back from the new data file -/
+theorem layout_reads (s : Nat) (l : List (Key × Rec)) (hw : ∀ kr ∈ l, RecWF kr) (pre : Bytes)
+    (hsmall : pre.length + (valsOf l).flatten.length < 2^32) :
+    ∀ kr ∈ layout s pre.length l, kr.2.seq = s ∧ ReadsBack (pre ++ (valsOf l).flatten) kr.2 (valOf kr.2) := by
+  induction l generalizing pre with
+  | nil => intro kr h; cases h
+  | cons hd t ih =>
+    obtain ⟨k, r⟩ := hd
+    obtain ⟨_, _, hlen⟩ := hw (k, r) List.mem_cons_self
+    have hv : (valsOf ((k, r) :: t)).flatten = r.data.getD [] ++ (valsOf t).flatten := by simp [valsOf]
+    rw [hv] at hsmall ⊢
+    simp only [List.length_append] at hsmall
+    intro kr h
+    simp only [layout, List.mem_cons] at h
+    rcases h with h | h
+    · rw [h]
+      have hu : u32 pre.length = pre.length := Nat.mod_eq_of_lt (by omega)
+      have hl' : r.len = (r.data.getD []).length := hlen
+      refine ⟨rfl, ?_, ?_, ?_⟩
+      · show u32 pre.length + r.len ≤ _
+        rw [hu, hl']; simp only [List.length_append]; omega
+      · show u32 pre.length + r.len < 2^32
+        rw [hu, hl']; omega
+      · show ((pre ++ (r.data.getD [] ++ (valsOf t).flatten)).drop (u32 pre.length)).take r.len = r.data.getD []
+        rw [hu, hl', List.drop_left' rfl]
+        exact List.take_left' rfl
+    · have hpre : pre.length + (r.data.getD []).length = (pre ++ r.data.getD []).length := by simp
+      rw [hpre] at h
+      have := ih (fun x hx => hw x (List.mem_cons_of_mem _ hx)) (pre ++ r.data.getD [])
+        (by simp only [List.length_append]; omega) kr h
+      simpa [List.append_assoc] using this
+
+theorem defrag_inv (d : DB) (h : Cached d) (hv : d.volatile = false) (hwf : IndexWF d.index) :
+    DiskInv (defrag d) ∧ absv (defrag d) = absv d ∧ (defrag d).pending = [] := by
+  obtain ⟨d1, d2, d3, d4, d5, d6, d7⟩ := defrag_disk d h
+  obtain ⟨m1, m2, m3, m4, m5⟩ := defrag_more d h
+  have hk := defrag_cached d h
+  have hS : u32 (d.dataSeq + 1) < 2^32 := u32_lt _
+  have hV : u32 (d.verSeq + 1) < 2^32 := u32_lt _
+  have hfits := layout_fits _ hS d.index hwf.wf 4 hwf.small
+  obtain ⟨j, hpick⟩ := pickIdx_single (defrag d).fs (1 - d.datIdx) (u32 (d.verSeq + 1)) _
+    (checkIdxFile_snapBytes _ _ hV) d3 d4
+  have hrecs := snapshotRecs_snapBytes (u32 (d.verSeq + 1)) (layout (u32 (d.dataSeq + 1)) 4 d.index) hfits
+  have hkeys : (Keys ((layout (u32 (d.dataSeq + 1)) 4 d.index).map stripKR)).Nodup := by
+    have : Keys ((layout (u32 (d.dataSeq + 1)) 4 d.index).map stripKR) = d.index.map (·.1) := by
+      unfold Keys
+      rw [List.map_map]
+      have : ((fun x : Key × Rec => x.1) ∘ stripKR) = (fun x : Key × Rec => x.1) := by funext x; rfl
+      rw [this, layout_keys]
+    rw [this]; exact hwf.nodup
+  have hDI : diskIndex (defrag d).fs = mapV strip (layout (u32 (d.dataSeq + 1)) 4 d.index) := by
+    unfold diskIndex snapBase logEntries
+    rw [hpick, d5]
+    simp only [applyEntriesL, List.foldl_nil, hrecs]
+    exact isetAll_nil_nodup _ hkeys
+  have hSV : snapVer (defrag d).fs = u32 (d.verSeq + 1) := by unfold snapVer; rw [hpick]
+  have hreads := layout_reads (u32 (d.dataSeq + 1)) d.index hwf.wf (le32 (u32 (d.dataSeq + 1)))
+    (by simpa using hwf.small)
+  simp only [le32_length] at hreads
+  refine ⟨?_, hk.abs, m4⟩
+  constructor
+  · exact hk.cached
+  · exact hk.volatile.trans hv
+  · rw [d2]; exact layout_wf _ _ _ hwf.wf
+  · rw [d2]; unfold Keys; rw [layout_keys]; exact hwf.nodup
+  · rw [m4]; exact List.nodup_nil
+  · rw [m4]; intro k hk'; cases hk'
+  · rw [hSV, m5]
+  · rw [m5]; exact hV
+  · rw [d7]; exact hS
+  · exact ⟨([] : List LogEntry), fun e he => (by cases he), Or.inl ⟨d5, rfl⟩⟩
+  · intro _; exact d5
+  · rw [m3]; intro h'; cases h'
+  · intro k _
+    rw [hDI, d2, ilookup_mapV, Option.map_map]
+    congr 1
+  · intro k r _ hr
+    rw [d2] at hr
+    have hmem := ilookup_key_pair k r _ hr
+    obtain ⟨h1, h2⟩ := hreads (k, r) hmem
+    exact ⟨_, by rw [h1]; exact d6, h2⟩
+  · intro kr hkr
+    rw [hDI] at hkr
+    obtain ⟨x, hx, rfl⟩ := List.mem_map.mp hkr
+    exact (layout_cached _ _ _ h.2 x hx).2
+  · intro _
+    refine ⟨_, by rw [d7]; exact d6, ?_, by simp⟩
+    rw [m2]; simp
+  · rw [m1]; intro h'; cases h'
+
 end GocoinV.Proofs.C19
